@@ -5,8 +5,10 @@ namespace QF.Props.C07
 /-- T1: the functions this property's mirror model follows have today the source text the model was written against.
 The decoder (`newExpr` and the constructors it calls, among them `newColConstExpr`) and `Expr` are no longer compared as
 text: their meaning is regenerated as `Gen.newExprAst` / `Gen.exprFoldAst` and proved equal to the spec's reading in
-`QF.Props.C07Decode.gen_expr_decode_semantics` / `gen_expr_fold`. -/
-theorem tie : Tie.sameAll ["qframe.Eval", "qframe.tempColName", "qframe.colConstExpr.execute", "qframe.exprExpr1.execute", "qframe.exprExpr2.execute", "qframe.colColExpr.execute", "qframe.unaryExpr.execute", "qframe.constExpr.execute", "qframe.getFunc"] = true := by decide
+`QF.Props.C07Decode.gen_expr_decode_semantics` / `gen_expr_fold`. The execution (`Eval`, `tempColName`, `getFunc` and the
+`execute` methods of all expression structs) is regenerated as `Gen.evalFns` / `Gen.tempColNameAst` and proved equal to the
+hand mirror in `QF.Props.C07EvalGen.gen_eval_semantics` / `gen_eval_bookkeeping`; nothing of C07 is compared as text any more. -/
+theorem tie : Tie.sameAll [] = true := by decide
 
 /-- The default evaluation context (operand type, arity, name ↦ function) is the one the spec's `evalUnary` /
 `evalBinary` were written against. -/
